@@ -218,7 +218,7 @@ func (w *c08W) fullSync() {
 	var off int64
 	switch g.Choose("fs.off", 3) {
 	case 0:
-		off = int64(g.Choose("fs.offv", 5000))
+		off = nearDigitBoundary(g, "fs.offv", int64(g.Choose("fs.offv", 5000)))
 	case 1:
 		off = w.right + int64(g.Choose("fs.offd", 300))
 	default:
@@ -400,6 +400,16 @@ func (w *c08W) record() {
 	w.r.Advance(2 * cacheTick)
 }
 
+// nearDigitBoundary: in a third of the draws the offset lies shortly below a power of ten, so that the segments written
+// from there on have file names of different lengths (numeric and lexical order of the names disagree).
+func nearDigitBoundary(g *simrt.Chooser, label string, off int64) int64 {
+	if g.Choose(label+".pow", 3) != 0 {
+		return off
+	}
+	p := []int64{1000, 10000, 100000, 1000000}[g.Choose(label+".powk", 4)]
+	return p - 1 - int64(g.Choose(label+".below", 400))
+}
+
 // fullSyncOrPlain: a cache starts either with a full sync or (follower / pre-existing position) with a plain log.
 func (w *c08W) fullSyncOrPlain() {
 	g := w.r.Gen()
@@ -409,7 +419,7 @@ func (w *c08W) fullSyncOrPlain() {
 	}
 	if w.setRunID(w.newID(), false) {
 		w.settle()
-		w.right = int64(g.Choose("start.off", 5000))
+		w.right = nearDigitBoundary(g, "start.off", int64(g.Choose("start.off", 5000)))
 		w.floor = w.right
 		w.startLogWriter(w.right, "initial")
 	}
@@ -594,6 +604,20 @@ func (w *c08W) interrogateBody(st *c08Session, img *simfs.FS, id string, im c08I
 		if rr > l && !fed.covers(l, rr) && !strings.Contains(im.flip, " length +") {
 			return w.violate("C08.range_beyond", "reported range is not within one contiguous run of bytes handed to the cache", im,
 				"id %s: GetOffsetRange = [%d,%d] but by then the cache had been given only %s of this history", tailID(id), l, rr, fed)
+		}
+	}
+	// --- "older segments separated from the newest data by a gap are discarded rather than served": judged on the final
+	// image, where every byte handed to the cache has reached its file. The cache was given two or more runs of this
+	// history that do not touch (the source skipped ahead and a new writer started beyond a gap); whatever it serves
+	// after the reopen must not be a run that ends in front of the newest one.
+	if hasRange && im.k == w.fs.JournalLen() && im.torn == 0 && im.flip == "" {
+		if n := len(fed); n >= 2 && fed[n-1].hi > fed[n-1].lo && rr < fed[n-1].lo {
+			simrt.Probe("c08_gap_in_final_image")
+			return w.violate("C08.stale_run_served", "an older run of segments is served although newer data lie beyond a gap", im,
+				"id %s: GetOffsetRange = [%d,%d] but the cache holds the newer run [%d,%d) of this history beyond a gap (runs handed to it: %s); directory: %v", tailID(id), l, rr, fed[n-1].lo, fed[n-1].hi, fed, img.Tree(c08Base))
+		}
+		if len(fed) >= 2 {
+			simrt.Probe("c08_gap_in_final_image")
 		}
 	}
 	// --- snapshot offered only if completely received
